@@ -247,6 +247,7 @@ def load_runs(i, g, big):
     return runs
 
 
+_FAIL_COUNT = {}
 BATCH = 3000      # trace records per batch (bounds the memory of the Python driver: a record carries ~25 runs)
 
 
@@ -363,9 +364,12 @@ def conformance_batch(chk, exe32, exe256, items, nw):
             where = " [%s]" % ", ".join("%s=%s" % (k, run[k]) for k in ("target", "src", "enc", "bom", "api", "chunk") if k in run)
         txt = rec.get("text") or rec.get("rows") or rec.get("objs")
         shown = "".join(chr(c) if 32 < c < 127 else "<%02X>" % c for c in rec["text"]) if rec["op"] == "load" else json.dumps(txt)
-        chk.fail("CSV %s: %s%s; sep=%r; %s=%s" % (rec["op"], b["why"], where, chr(rec["sep"]),
-                                                   "text" if rec["op"] == "load" else "table", shown[:300]),
-                 {"leg": "conformance", "verdict": b, "case": case}, dev=b["dev"] or None)
+        what = "CSV %s: %s%s; sep=%r; %s=%s" % (rec["op"], b["why"], where, chr(rec["sep"]),
+                                                 "text" if rec["op"] == "load" else "table", shown[:300])
+        # occurrences of one classification beyond the first 300 are counted, their full cases are not kept in memory
+        seen = _FAIL_COUNT.get(b["dev"], 0)
+        _FAIL_COUNT[b["dev"]] = seen + 1
+        chk.fail(what, {"leg": "conformance", "verdict": b, "case": case if seen < 300 else {"id": rec["id"]}}, dev=b["dev"] or None)
 
 
 def run_check(tier):
